@@ -79,6 +79,12 @@ SetIndexT(c) ==
     ELSE /\ ret' = "raised" /\ UNCHANGED <<header, rows, index>>
 SetIndex(c) == SetIndexT(c) /\ Log("SetIndex", <<c>>)
 
+(* table.index_name = <a name that is not a column> : refused, like a column with repeated values. *)
+(* A refused call is a stuttering step of the model: every later observation - of the object, of   *)
+(* tables derived from it and of its serialised forms - equals that of an object that never saw it *)
+SetIndexUnknownT == ret' = "raised" /\ UNCHANGED <<header, rows, index>>
+SetIndexUnknown  == SetIndexUnknownT /\ Log("SetIndexUnknown", <<"q">>)
+
 (* table.index_name = None : nothing moves *)
 ClearIndexT == index' = "" /\ ret' = "ok" /\ UNCHANGED <<header, rows>>
 ClearIndex  == ClearIndexT /\ Log("ClearIndex", <<>>)
@@ -110,12 +116,27 @@ ObserveT(what) ==
     /\ ret' = IF what = "SumRows" THEN Map(rows, RowSum) ELSE "ok"
 Observe(what, args) == ObserveT(what) /\ Log(what, args)
 
+(* observations through a DERIVED table (a new Table built from the object's persistent attributes): *)
+(* filtered with a predicate that keeps every row, with_new_column adding a constant, sorted on a    *)
+(* column that is already ascending.  The derived table has the object's header (plus the new        *)
+(* column), rows and index_name.  These, and the JSON / pickle round trips, end a history.           *)
+Ascending(c) == LET v == ColOf(header, rows, c) IN
+                /\ {i \in 1..Len(v) : Tag(v[i]) # "i"} = {}
+                /\ {i \in 1..(Len(v) - 1) : DecVal(Txt(v[i])) >= DecVal(Txt(v[i + 1]))} = {}
+DerivedKinds == {"filtered", "with_new_column"} \cup (IF Ascending(header[1]) THEN {"sorted"} ELSE {})
+Terminal == hist # <<>> /\ (\/ hist[Len(hist)][1] = "Derived"
+                            \/ (hist[Len(hist)][1] = "WriteLoad" /\ hist[Len(hist)][2][1] \in {"json", "pickle"}))
+
 Init == /\ init \in Tables
         /\ header = init.header /\ rows = init.rows /\ index = ""
         /\ hist = <<>> /\ ret = "init"
 
 Next == /\ Len(hist) < MaxLen
+        /\ ~Terminal
         /\ \/ \E c \in Range(header) : SetIndex(c)
+           \/ SetIndexUnknown
+           \/ \E k \in DerivedKinds : Observe("Derived", <<k, header[1]>>)
+           \/ \E f \in {"json", "pickle"} : Observe("WriteLoad", <<f>>)
            \/ ClearIndex
            \/ \E c \in Range(header) \cup {"z"} : AssignColumn(c)
            \/ \E c \in Range(header) \ {index} : Len(header) > 1 /\ DelColumn(c)
@@ -133,7 +154,13 @@ WellFormed == /\ \A i \in 1..Len(rows) : Len(rows[i]) = Len(header)
 
 (* an observation changes nothing; a re-ordering keeps every column's values *)
 ObservationsArePure ==
-    [][(hist' # hist /\ hist'[Len(hist')][1] \in {"Array", "ToDict", "SumRows", "WriteLoad"})
+    [][(hist' # hist /\ hist'[Len(hist')][1] \in {"Array", "ToDict", "SumRows", "WriteLoad", "Derived"})
+         => StP = St]_vars
+(* a refused call changes nothing *)
+RefusedIsStuttering ==
+    [][(hist' # hist /\ LET l == hist'[Len(hist')] IN
+                          \/ l[1] = "SetIndexUnknown"
+                          \/ (l[1] = "SetIndex" /\ ~UniqueCol(l[2][1])))
          => StP = St]_vars
 ReorderKeepsColumns ==
     [][(hist' # hist /\ hist'[Len(hist')][1] \in {"SetIndex", "ClearIndex"})
